@@ -118,7 +118,7 @@ UidsOfCombos(C) == UNION C
 AliasBetween(A, B) ==
     \E a \in A \cap DOMAIN ids, b \in B \cap DOMAIN ids : a # b /\ ids[a] = ids[b]
 AliasCause(g2, u, e) ==
-    IF AliasBetween(UidsOfCombos(g2.usk[u].grant0), UNION {x.c : x \in g2.enc[e].tgx})
+    IF AliasBetween(UidsOfCombos(g2.usk[u].grant0) \cup UNION {x.c : x \in g2.enc[e].tgx}, DOMAIN ids)
     THEN "alias" ELSE "none"
 
 CompletenessProps(g2, u, e) ==
@@ -308,6 +308,22 @@ IdViol(ev) ==
              ELSE {})
        ELSE {}
 
+\* Conformance of the implementation-shaped model (Covercrypt.tla): behaviours generated by TLC
+\* carry the result and the decapsulation matrix the model predicts.  A difference is MODEL DRIFT
+\* (the code no longer behaves like the model), never a property violation.
+DriftViol(ev) ==
+    IF Has(ev, "model_res")
+    THEN LET rows == Get(ev, "opens", <<>>)
+             obsSame == {<<rows[i].u, rows[i].e>> : i \in {j \in 1..Len(rows) : rows[j].r = "same" /\ ~rows[j].p}}
+             model == {<<ev.model_opens[i][1], ev.model_opens[i][2]>> : i \in 1..Len(ev.model_opens)}
+             r == IF ev.res = "ok" THEN "ok" ELSE "err"
+         IN (IF r # ev.model_res
+             THEN {Vio({"DRIFT"}, "model predicted another result", "drift", <<ev.op, ev.model_res, ev.res>>)} ELSE {})
+            \cup
+            (IF obsSame # model
+             THEN {Vio({"DRIFT"}, "model predicted another decapsulation matrix", "drift", <<ev.op, model, obsSame>>)} ELSE {})
+    ELSE {}
+
 \* implementation identifiers of the attributes the abstract state knows
 IdsFrom(g2, m) ==
     [u \in DOMAIN g2.attrs |->
@@ -379,7 +395,7 @@ Call(ev) ==
         g2 == IF follow THEN Apply(ev) ELSE g
         g3 == g2
         m == ViewMsk(ev)
-        newviol == ContractViol(ev, v) \cup RoundTripViol(ev) \cup FreshViol(ev)
+        newviol == ContractViol(ev, v) \cup RoundTripViol(ev) \cup FreshViol(ev) \cup DriftViol(ev)
                    \cup (IF lostSync THEN {} ELSE
                            OpensViol(g3, ev) \cup RecapsViol(g3, ev) \cup FlavourViol(g3, ev)
                            \cup HeldViol(ev) \cup IdViol(ev))
